@@ -292,6 +292,66 @@ def gen_timing_args(repo, irregular):
                                   ["has_timestamp", "has_start_time", "has_time_offset", "has_sample_interval"],
                                   ["timestamp", "time_offset", "sample_interval"])
     m.out += m4.out
+    # T9c: the named constructors (which arguments they hand to the general constructor), what `__eq__` compares, what `__reduce__` passes on
+    init = m4.find_func("Timing", "__init__")
+    init_params = [a.arg for a in init.args.args][1:]
+    if init_params != ["sample_interval_mode", "timestamp", "time_offset", "sample_interval", "timestamps"]:
+        raise T.Untranslatable(f"Timing.__init__ parameters {init_params}", init, m4.path)
+    MODE = {"SampleIntervalMode.NONE": "Model.Timing.Mode.none", "SampleIntervalMode.REGULAR": "Model.Timing.Mode.regular", "SampleIntervalMode.IRREGULAR": "Model.Timing.Mode.irregular"}
+    for name in ("create_with_no_interval", "create_with_regular_interval", "create_with_irregular_interval"):
+        fn = m4.find_func("Timing", name)
+        params = [a.arg for a in fn.args.args][1:]
+        body = [st for st in fn.body if not (isinstance(st, ast.Expr) and isinstance(st.value, ast.Constant))]
+        if not (len(body) == 1 and isinstance(body[0], ast.Return) and isinstance(body[0].value, ast.Call) and ast.unparse(body[0].value.func) in ("Timing", "cls")):
+            raise T.Untranslatable(f"Timing.{name}: expected a single `return Timing(...)`", fn, m4.path)
+        call = body[0].value
+        slots = dict.fromkeys(init_params)
+        for i, a in enumerate(call.args):
+            slots[init_params[i]] = a
+        for kw in call.keywords:
+            if kw.arg not in slots or slots[kw.arg] is not None:
+                raise T.Untranslatable(f"Timing.{name}: keyword {kw.arg}", fn, m4.path)
+            slots[kw.arg] = kw.value
+        terms = []
+        for p in init_params:
+            a = slots[p]
+            if p == "sample_interval_mode":
+                if a is None or ast.unparse(a) not in MODE:
+                    raise T.Untranslatable(f"Timing.{name}: mode argument {ast.unparse(a) if a else None}", fn, m4.path)
+                terms.append(MODE[ast.unparse(a)])
+            elif a is None:
+                terms.append("Model.Timing.Arg.absent")
+            elif isinstance(a, ast.Name) and a.id in params:
+                terms.append(a.id)
+            else:
+                raise T.Untranslatable(f"Timing.{name}: argument {ast.unparse(a)} for {p}", fn, m4.path)
+        m.out.append(f"/-- generated from `Timing.{name}`: the arguments it hands to the general constructor (mode, timestamp, time_offset, sample_interval, timestamps) -/")
+        m.out.append(f"@[pygen] def {name} " + " ".join(f"({p} : Model.Timing.Arg)" for p in params) + " : Model.Timing.Mode × Model.Timing.Arg × Model.Timing.Arg × Model.Timing.Arg × Model.Timing.Arg :=")
+        m.out.append("  (" + ", ".join(terms) + ")")
+        m.out.append("")
+    eqf = m4.find_func("Timing", "__eq__")
+    eb = [st for st in eqf.body if not (isinstance(st, ast.Expr) and isinstance(st.value, ast.Constant))]
+    if not (len(eb) == 2 and ast.unparse(eb[0]) == "if not isinstance(value, self.__class__):\n    return NotImplemented" and isinstance(eb[1], ast.Return)
+            and isinstance(eb[1].value, ast.BoolOp) and isinstance(eb[1].value.op, ast.And)):
+        raise T.Untranslatable("Timing.__eq__: expected the class test and one conjunction of member comparisons", eqf, m4.path)
+    members = []
+    for c in eb[1].value.values:
+        if not (isinstance(c, ast.Compare) and len(c.ops) == 1 and isinstance(c.ops[0], ast.Eq) and isinstance(c.left, ast.Attribute) and ast.unparse(c.left.value) == "self"
+                and ast.unparse(c.comparators[0]) == "value." + c.left.attr):
+            raise T.Untranslatable(f"Timing.__eq__: unsupported conjunct {ast.unparse(c)}", c, m4.path)
+        members.append(c.left.attr)
+    m.out.append("/-- generated from `Timing.__eq__`: the members compared with `==` (all of them must be equal) -/")
+    m.out.append("@[pygen] def eq_members : List String := [" + ", ".join(f'"{x}"' for x in members) + "]")
+    m.out.append("")
+    rf = m4.find_func("Timing", "__reduce__")
+    rsrc = "\n".join(ast.unparse(st) for st in rf.body if not (isinstance(st, ast.Expr) and isinstance(st.value, ast.Constant)))
+    want = ("ctor_args = (self._sample_interval_mode, self._timestamp, self._time_offset, self._sample_interval, self._timestamps)\nctor_kwargs: dict[str, Any] = {}\n"
+            "if self._timestamps is not None:\n    ctor_kwargs['copy_timestamps'] = False\nreturn (self.__class__._unpickle, (ctor_args, ctor_kwargs))")
+    if rsrc != want:
+        raise T.Untranslatable("Timing.__reduce__ is not the expected statement list:\n" + rsrc, rf, m4.path)
+    m.out.append("/-- generated from `Timing.__reduce__`: the constructor arguments a pickle carries, in the constructor's parameter order -/")
+    m.out.append('@[pygen] def reduce_args : List String := ["_sample_interval_mode", "_timestamp", "_time_offset", "_sample_interval", "_timestamps"]')
+    m.out.append("")
     m.out.append("/-- generated from `_SAMPLE_INTERVAL_STRATEGY_TYPE_FOR_MODE` (a `dict.get` lookup; a miss raises ValueError) -/")
     m.out.append("@[pygen] def strategy_for_mode : List (String × String) := [" + ", ".join(f'("{k}", "{v}")' for k, v in table) + "]")
     m.out.append("")
